@@ -331,6 +331,23 @@ def nestStack (depth : Nat) (off : Int) : Stack :=
 def traceCount (l : Limits) (depth : Nat) : Nat :=
   (newErrorTrace (nestStack depth 1) l.trace 0 (some 1)).length
 
+/-! ## several errors alive at once -/
+
+/-- error.go:139-190: `newError` builds `err.trace` by appending to the new error's own (nil) slice, so every error
+    owns its frames.  The errors a runtime has created so far, oldest first, each with the trace it holds: -/
+abbrev ErrorStore := List (List Frame)
+
+/-- creating one more error (in the situation `sc`) adds its trace and touches no other -/
+def createError (limit : Int) (store : ErrorStore) (sc : Scenario) : ErrorStore :=
+  store ++ [traceFrames limit sc]
+
+def createErrors (limit : Int) : ErrorStore → List Scenario → ErrorStore
+  | store, [] => store
+  | store, sc :: r => createErrors limit (createError limit store sc) r
+
+/-- what `Error.stack` / `otto.Error.String()` of the i-th error shows when it is read now -/
+def readTrace (store : ErrorStore) (i : Nat) : Option (List Frame) := store[i]?
+
 /-! ## which error the interpreter raises for which situation (the `panicXxxError` call sites) -/
 
 inductive ErrKind
